@@ -465,6 +465,51 @@ def pipeline(ctx, contract):
                                       'results': [str(x[1]) for x in lst][:3]}, property_fails=True)
 
 
+
+def shared_text_histories(ctx, contract):
+    """The same numeric text asked of cultures with DIFFERENT day/month orders in ONE process ("the result does not
+    depend on …": neither on the reference nor on what the process recognised before): `a/b/y` with a, b <= 12, a != b is
+    month a in en-us and month b in the day-first cultures, whichever culture saw it first. Two sequences, each in a
+    fresh single process: month-first culture first, and day-first cultures first."""
+    import multiprocessing
+    order = contract['order']
+    pairs = [(5, 12), (12, 5), (1, 2), (3, 11), (10, 4), (7, 8)] + ([(a, b) for a in range(1, 13) for b in range(1, 13) if a != b][::7] if ctx.thorough else [])
+    years = [2010, 1999, 2024]
+    cultures = [c for c in contract['layouts'] if order.get(c) in ('mdy', 'dmy')]
+    mdy = [c for c in cultures if order[c] == 'mdy']
+    dmy = [c for c in cultures if order[c] == 'dmy']
+    ref = REFS[0]
+    for tag, seq_cultures in (('month-first culture first', mdy + dmy), ('day-first cultures first', dmy + mdy)):
+        cases = []
+        for k, (a, b) in enumerate(pairs):
+            y = years[k % len(years)]
+            for sep in ('/', '-'):
+                text = '%d%s%d%s%d' % (a, sep, b, sep, y)
+                for c in seq_cultures:
+                    iso = '%04d-%02d-%02d' % ((y, a, b) if order[c] == 'mdy' else (y, b, a))
+                    cases.append((c, 'numeric-shared', 'shared-text', text, ref, text, iso))
+        mpctx = multiprocessing.get_context('fork')
+        with mpctx.Pool(1, initializer=dtres._worker_init) as pool:            # ONE process: the history is the point
+            results = pool.map(dtres._worker_run, [[(c[0], c[3], c[4]) for c in cases]], chunksize=1)[0]
+        ctx.count('pipeline:shared-text-history (%s)' % tag, len(cases))
+        seen = set()
+        for case, res in zip(cases, results):
+            bad = judge(case, res)
+            if bad is None:
+                ctx.nontriv(('shared', tag, case[0], case[3]))
+                continue
+            sig = 'shared-text-history-%s' % case[0]
+            if sig in seen:
+                continue
+            seen.add(sig)
+            dtres.report(ctx, 'property', sig,
+                         'parse[%s](%r) asked in one process after the other cultures (%s): %s' % (case[0], case[3], tag, bad),
+                         failing_input={'op': 'recognize_datetime sequence in one process', 'order': tag,
+                                        'sequence': [(c[0], c[3]) for c in cases[:cases.index(case) + 1]][-12:],
+                                        'culture': case[0], 'query': case[3], 'reference': list(ref), 'expected': case[6],
+                                        'observed': bad}, property_fails=True)
+
+
 def replay_witnesses(ctx, T):
     """The negative theorems' witnesses on the implementation (two_digit_year_witness, invalid_date_not_resolved)."""
     ref = datetime.datetime(*REFS[2])
@@ -502,6 +547,7 @@ def correspond(ctx):
     unit_resolution(ctx, T)
     replay_witnesses(ctx, T)
     pipeline(ctx, contract)
+    shared_text_histories(ctx, contract)
 
 
 def search(ctx, proof_problems):
